@@ -10,6 +10,7 @@ pub fn run_case(kind: &str, fields: Vec<String>) -> Vec<String> {
             "open".to_string()
         }],
         "progx" => progx::run(fields),
+        "display" => crate::on_fresh_thread(move || display(&fields)),
         "session" => session(fields),
         "world" => crate::on_fresh_thread(move || world(&fields)),
         "libs" => crate::on_fresh_thread(move || libs(&fields)),
@@ -196,4 +197,20 @@ fn session(fields: Vec<String>) -> Vec<String> {
         out.extend(errs);
         out
     })
+}
+
+/// `display`: fields = mode, an expression. `T <text>` = Display of its value (what `display`
+/// prints), `V <canonical value>`, then the result of evaluating `(quote <text>)` on the same
+/// interpreter: the printed text quoted and read back.
+fn display(fields: &[String]) -> Vec<String> {
+    let mut it = progx::new_interpreter(&fields[0]);
+    match it.eval(fields[1].chars()) {
+        Ok(Some(v)) => {
+            let text = format!("{}", v);
+            let back = crate::eval_form(&mut it, &format!("(quote {})", text));
+            vec![format!("T {}", crate::esc(&text)), format!("V {}", crate::canon_value(&v)), back]
+        }
+        Ok(None) => vec!["N".to_string()],
+        Err(e) => vec![crate::canon_err(&e)],
+    }
 }
